@@ -122,6 +122,13 @@ def check_driver_loop(cx: Cx, fn, model_from: List[str], rule='R-GUARD', limit: 
                 model = e.data.get('recv')
                 # the object that is stepped: the model itself, or its scheduler
                 mt = strip_versions(model)
+                if any(t.qualname == CORE + 'SystemManager.execute_systems' for t in e.data.get('targets', [])) and _depth == 0 and \
+                        not getattr(cx, '_stepping_reported', False):
+                    cx._stepping_reported = True
+                    cx.violation(rule, fn.qualname, 'steps-through-Model.execute',
+                                 f"{fn.name} steps the scheduler directly (execute_systems) instead of calling model.execute(): a Model "
+                                 f"subclass that overrides execute() (its own completion rule, bookkeeping per step) is bypassed, so the run "
+                                 f"differs from running that model by hand", where=cx.where(fn, e.line))
                 if isinstance(mt, Attr) and mt.name == 'systems' and any(t.qualname == CORE + 'SystemManager.execute_systems' for t in e.data.get('targets', [])):
                     mt = mt.base
                     model = mt
